@@ -46,8 +46,10 @@ fcppt::options::many<Parser>::parse(
 
   fcppt::options::state state{std::move(_state)};
 
+  // Parse a copy: if an iteration fails, state still is what the last
+  // successful iteration left.
   auto const next([this, &state, &_context] {
-    return fcppt::options::deref(this->parser_).parse(std::move(state), _context);
+    return fcppt::options::deref(this->parser_).parse(fcppt::options::state{state}, _context);
   });
 
   auto const loop(
@@ -69,10 +71,11 @@ fcppt::options::many<Parser>::parse(
 
   return fcppt::variant::match(
       fcppt::either::loop(next, loop),
-      [&result](fcppt::options::missing_error &&_missing_error) {
+      [&result, &state](fcppt::options::missing_error &&) {
+        // Do not continue from the state inside the error: the failed iteration
+        // may already have consumed arguments (e.g. the left side of a product).
         return fcppt::options::parse_result<result_type>{
-            fcppt::options::state_with_value<result_type>(
-                std::move(_missing_error.state()), std::move(result))};
+            fcppt::options::state_with_value<result_type>(std::move(state), std::move(result))};
       },
       [](fcppt::options::other_error &&_other_error) {
         return fcppt::either::make_failure<fcppt::options::state_with_value<result_type>>(
